@@ -104,6 +104,14 @@ def run(ctx):
       ctx.formula('FORMULA', 'general injection maps the requested range to columns [clip(i0, 0, fchans), clip(i1, 0, fchans)) — the '
                 'exclusive stop may reach fchans, so the helper\'s box keeps the top channel', asig, ds[0].data['key'],
                 want.single_atom().args[1], node=ds[0].node, construct=ds[0].text() + ' [columns]')
+    # the helper hands its box to the general injection as FREQUENCIES, which come back through get_index: that conversion must
+    # be the plain rounded offset -- clamped into [0, fchans-1] it would turn the exclusive stop `fchans` into `fchans-1` and the
+    # helper could never fill the top channel (the clause is stated here, on the function C13 depends on, and in C06)
+    gi = ctx.func(FR + 'get_index')
+    rgi, _ = ctx.run(gi)
+    ctx.formula('FORMULA', 'get_index is the unclamped rounded channel offset round((f - fmin)/df): the helper\'s exclusive stop index '
+                'survives the round trip through frequencies', gi, rgi.ret,
+                ctx.spec(gi, 'np.round((frequency - self.fmin) / self.df).astype(int)'), node=gi.node, construct='return get_index')
     # RANGE: at every call site of Frame.add_signal in the package the sub-step count is provably >= 1
     ctx.clause = 'D2'
     sites = 0
